@@ -22,17 +22,19 @@ contract ScrapeStatus.SetScrapeErr
 
 // C14: "A target's series value is the integer mean of its last up to three successful scrapes, its total-series
 // value is that of the last successful scrape"
+// C20: the explorer records its successful probe through the same method ("the sample counts of the successful probe ...
+// become the target's load estimate used for its first assignment" - the coordinator reads them from this status object)
 contract ScrapeStatus.UpdateScrapeResult
   requires t != nil && r != nil && wfWindow(t) && r.ScrapedTotal >= toreal(0) && r.Total >= toreal(0)
-  ensures[C14] @window_grows old(len(t.lastSeries)) < 3 ==> (len(t.lastSeries) == old(len(t.lastSeries)) + 1
+  ensures[C14,C20] @window_grows old(len(t.lastSeries)) < 3 ==> (len(t.lastSeries) == old(len(t.lastSeries)) + 1
         && (forall i in 0..old(len(t.lastSeries)) :: t.lastSeries[i] == old(t.lastSeries[i]))
         && t.lastSeries[old(len(t.lastSeries))] == toint(r.ScrapedTotal))
   ensures[C14] @window_slides old(len(t.lastSeries)) == 3 ==> (len(t.lastSeries) == 3
         && t.lastSeries[0] == old(t.lastSeries[1]) && t.lastSeries[1] == old(t.lastSeries[2]) && t.lastSeries[2] == toint(r.ScrapedTotal))
-  ensures[C14] @series_is_integer_mean (len(t.lastSeries) == 1 ==> t.Series == t.lastSeries[0])
+  ensures[C14,C20] @series_is_integer_mean (len(t.lastSeries) == 1 ==> t.Series == t.lastSeries[0])
         && (len(t.lastSeries) == 2 ==> t.Series == (t.lastSeries[0] + t.lastSeries[1]) / 2)
         && (len(t.lastSeries) == 3 ==> t.Series == (t.lastSeries[0] + t.lastSeries[1] + t.lastSeries[2]) / 3)
-  ensures[C14] @total_is_last_scrape t.TotalSeries == toint(r.Total) && t.LastScrapeStatistics == r
+  ensures[C14,C20] @total_is_last_scrape t.TotalSeries == toint(r.Total) && t.LastScrapeStatistics == r
   ensures wfWindow(t) && t.Series >= 0 && t.TotalSeries >= 0
   modifies ScrapeStatus.lastSeries at {t}, ScrapeStatus.Series at {t}, ScrapeStatus.TotalSeries at {t}, ScrapeStatus.LastScrapeStatistics at {t}, elems(ScrapeStatus.lastSeries) at {}
   loop 1 invariant idx1 <= 3
